@@ -63,6 +63,12 @@ def c18(F, R, tier):
           'histories because the invariant is inductive). Finiteness debug-assertions are not decided here (see C08 census).')
 def c15(F, R, tier):
     e3_bounds.run_bounds(F, R, want_c15=True, want_c18=False)
+    # finiteness assertions: every division/log/sqrt guarded, every value assertion implied by its path (shared with C08)
+    from .e_ready import Ready
+    counters = {}
+    for v in F.views:
+        Ready(F, v).census(R, counters)
+    R.extra['float_census'] = counters
     R.decline('internal finiteness assertions (debug_assert!(x.is_finite())) are only covered through the guarded-division census of C08; overflow to inf of an unstable recursion is C09\'s clause')
 
 
@@ -128,3 +134,17 @@ def c10(F, R, tier):
           'constant-reproduction, monotonicity and affine clauses follow in real arithmetic. ' + PARTIAL)
 def c04(F, R, tier):
     e_typed_props.run_c04(F, R)
+
+
+from . import e_ready
+
+
+@register('C08', 'other',
+          'Readiness and finiteness, structural clauses: (Q1) the path on which the inner view reports nothing leaves every field '
+          'unchanged, for all views; (Q2) readiness is monotone — Some before an update entails Some after it on every exit '
+          '(entailment from the inferred class invariant, N symbolic); (Q3) warm-up thresholds of the 21 tabled views by '
+          'constant propagation of the integer/typestate skeleton with every float unknown, for concrete N in a stated range, '
+          'which must never branch on data; (Q4) every float division, logarithm and square root and every float assertion in '
+          'view code is guarded on its path (interval/sign analysis with integer lower bounds) or is in a reviewed exception table. ' + PARTIAL)
+def c08(F, R, tier):
+    e_ready.run_c08(F, R, tier)
